@@ -73,7 +73,8 @@ CHECKS = {
             "FdWriter over descriptors whose read()/write() fail with EINTR and transfer short counts; "
             "StreamWriter over a stream that takes only cap bytes -> StreamError, FdWriter on /dev/full -> IOError), and "
             "size()/capacity()/remaining()/empty() to agree with the automaton after every call; "
-            "MC_IO checks OneContract on the product of all kinds; 67 generated constexpr values are serialised in "
+            "MC_IO checks OneContract on the product of all kinds; MC_FdEnv checks the descriptor classes at system-call grain (any "
+            "piece sizes, EINTR, end of file: in order, complete on OK, status as the contract says); 67 generated constexpr values are serialised in "
             "constant expressions, by the constexpr writer at run time and by the pedantic writer, and must agree.", "6 C17"),
     "C18": ("SipHash.tla (SipHash-2-4 transcribed from the paper on 16-bit limbs, self-checked against the reference "
             "vectors by MC_Fn) evaluates every hash: messages of every length/residue, uint8_t and char buffers, varied keys, "
